@@ -74,25 +74,24 @@ theorem testsWithSuitePath_snd (parent : Path) (ss : List SuiteResult) :
 
 /-! ### `ReportStats.from_suites` -/
 
-theorem statsFromSuites_counts (par : Bool) (ss : List SuiteResult) (st : Stats) (h : statsFromSuites par ss = .ok st) :
-    st.total = (forestTests ss).length ∧ st.passed = countStatus .passed (forestTests ss) ∧
-    st.failed = countStatus .failed (forestTests ss) ∧ st.skipped = countStatus .skipped (forestTests ss) ∧
-    st.disabled = countStatus .disabled (forestTests ss) := by
+theorem statsFromSuites_counts (ss : List SuiteResult) :
+    (statsFromSuites ss).total = (forestTests ss).length ∧ (statsFromSuites ss).passed = countStatus .passed (forestTests ss) ∧
+    (statsFromSuites ss).failed = countStatus .failed (forestTests ss) ∧
+    (statsFromSuites ss).skipped = countStatus .skipped (forestTests ss) ∧
+    (statsFromSuites ss).disabled = countStatus .disabled (forestTests ss) := by
   have ht : (flattenResults ss).filterMap anyIsTest = forestTests ss := tests_of_results ss
-  unfold statsFromSuites at h
-  simp only [ht] at h
-  split at h
-  · cases h; exact ⟨rfl, rfl, rfl, rfl, rfl⟩
-  · split at h <;> first | cases h; exact ⟨rfl, rfl, rfl, rfl, rfl⟩ | cases h
-
-theorem statsFromSuites_error_iff (par : Bool) (ss : List SuiteResult) :
-    (∃ e, statsFromSuites par ss = .error e) ↔
-      par = false ∧ ¬ ∃ a b, firstStart (flattenResults ss) = some (some a) ∧ lastEnd (flattenResults ss) = some (some b) := by
   unfold statsFromSuites
+  simp only [ht]
+  exact ⟨trivial, trivial, trivial, trivial, trivial⟩
+
+theorem fromSuitesDurationKnown_iff (par : Bool) (ss : List SuiteResult) :
+    fromSuitesDurationKnown par ss = true ↔
+      par = false ∧ ∃ a b, firstStart (flattenResults ss) = some (some a) ∧ lastEnd (flattenResults ss) = some (some b) := by
+  unfold fromSuitesDurationKnown
   cases par with
   | true => simp
   | false =>
-    simp only [Bool.false_eq_true, if_false, true_and]
+    simp only [Bool.not_false, Bool.true_and, true_and]
     split <;> simp_all
 
 /-! ### the results of a filtered forest are results of the forest -/
@@ -139,27 +138,6 @@ theorem filtered_results_sub (f : RFilter) (parent : Path) (ss : List SuiteResul
     (h : a ∈ flattenResults (filterSuiteList f parent ss)) : a ∈ flattenResults ss :=
   filterSuiteList_results f parent ss a h
 
-/-- every result has a start and an end time -/
-def allTimed (rs : List AnyResult) : Prop := ∀ a ∈ rs, a.result.startTime.isSome = true ∧ a.result.endTime.isSome = true
-
-theorem statsFromSuites_ok_of_timed (par : Bool) (ss : List SuiteResult) (hne : flattenResults ss ≠ [])
-    (ht : allTimed (flattenResults ss)) : ∃ st, statsFromSuites par ss = .ok st := by
-  cases hres : statsFromSuites par ss with
-  | ok st => exact ⟨st, rfl⟩
-  | error e =>
-    exfalso
-    obtain ⟨_, hno⟩ := (statsFromSuites_error_iff par ss).mp ⟨e, hres⟩
-    apply hno
-    obtain ⟨x, xs, hx⟩ := List.exists_cons_of_ne_nil hne
-    have hlast : (flattenResults ss).getLast? = some ((flattenResults ss).getLast hne) := List.getLast?_eq_some_getLast hne
-    have h1 := ht x (by rw [hx]; exact List.mem_cons_self)
-    have h2 := ht _ (List.getLast_mem hne)
-    obtain ⟨a, ha⟩ := Option.isSome_iff_exists.mp h1.1
-    obtain ⟨b, hb⟩ := Option.isSome_iff_exists.mp h2.2
-    refine ⟨a, b, ?_, ?_⟩
-    · simp [firstStart, hx, ← ha]
-    · simp [lastEnd, hlast, hb]
-
 /-! ### `lcc report --short` -/
 
 theorem shown_lines (suites : List SuiteResult) :
@@ -202,40 +180,34 @@ theorem CountsOf.perm {st : Stats} {ts ts' : List TestResult} (h : CountsOf st t
 
 /-- one unfolding of `print_report_as_test_run`: the lines are the tests of the kept suites, and a summary, when
     printed, is `summaryOf` of statistics that count the tests of the kept suites -/
-theorem shortReport_spec (r : Report) (filt : Option RFilter) (v : ShortView) (h : shortReport r filt = .ok v) :
-    v.lines = testsWithSuitePath [] (filterSuiteList (filt.getD RFilter.all) [] (view r)) ∧
-    ((v.summary = none ∧ v.lines = []) ∨
-     (v.lines ≠ [] ∧ ∃ st, v.summary = some (summaryOf st) ∧
+theorem shortReport_spec (r : Report) (filt : Option RFilter) :
+    (shortReport r filt).lines = testsWithSuitePath [] (filterSuiteList (filt.getD RFilter.all) [] (view r)) ∧
+    (((shortReport r filt).summary = none ∧ (shortReport r filt).lines = []) ∨
+     ((shortReport r filt).lines ≠ [] ∧ ∃ st, (shortReport r filt).summary = some (summaryOf st) ∧
         CountsOf st (forestTests (filterSuiteList (filt.getD RFilter.all) [] (view r))))) := by
   have hl := shown_lines (filterSuiteList (filt.getD RFilter.all) [] (view r))
   have he := shown_empty_iff (filterSuiteList (filt.getD RFilter.all) [] (view r))
   unfold tagTests at hl
-  unfold shortReport at h
-  simp only at h
-  split at h
+  unfold shortReport
+  simp only
+  split
   · rename_i hemp
-    cases h
     exact ⟨hl, Or.inl ⟨rfl, hl.trans (he.mp hemp)⟩⟩
   · rename_i hemp
     have hne : testsWithSuitePath [] (filterSuiteList (filt.getD RFilter.all) [] (view r)) ≠ [] := fun e => hemp (he.mpr e)
-    split at h
-    · cases h
-      refine ⟨hl, Or.inr ⟨by simp only [hl]; exact hne, statsOf r, rfl, ?_⟩⟩
+    split
+    · refine ⟨hl, Or.inr ⟨by simp only [hl]; exact hne, statsOf r, rfl, ?_⟩⟩
       have hc : CountsOf (statsOf r) (allTests r) := stats_eq_enumeration r
       refine hc.perm ?_
       have : forestTests (filterSuiteList RFilter.all [] (view r)) = forestTests (view r) := by
         rw [← testsWithSuitePath_snd [], testsWithSuitePath_filter, filter_all, testsWithSuitePath_snd]
       simp only [Option.getD_none, this]
       exact (view_tests_perm r).symm
-    · split at h
-      · rename_i st hst
-        cases h
-        exact ⟨hl, Or.inr ⟨by simp only [hl]; exact hne, st, rfl, statsFromSuites_counts _ _ _ hst⟩⟩
-      · cases h
+    · exact ⟨hl, Or.inr ⟨by simp only [hl]; exact hne, _, rfl, statsFromSuites_counts _⟩⟩
 
-theorem shortReport_lines (r : Report) (filt : Option RFilter) (v : ShortView) (h : shortReport r filt = .ok v) :
-    v.lines = (testsWithSuitePath [] (view r)).filter (fun pt => (filt.getD RFilter.all).test pt.1 pt.2) := by
-  rw [(shortReport_spec r filt v h).1, testsWithSuitePath_filter]
+theorem shortReport_lines (r : Report) (filt : Option RFilter) :
+    (shortReport r filt).lines = (testsWithSuitePath [] (view r)).filter (fun pt => (filt.getD RFilter.all).test pt.1 pt.2) := by
+  rw [(shortReport_spec r filt).1, testsWithSuitePath_filter]
 
 theorem summaryOf_counts (st : Stats) (ts : List TestResult) (h : CountsOf st ts) :
     (summaryOf st).tests = ts.length ∧ (summaryOf st).successes = countStatus .passed ts ∧
@@ -245,13 +217,12 @@ theorem summaryOf_counts (st : Stats) (ts : List TestResult) (h : CountsOf st ts
   simp [summaryOf, h1, h2, h3, h4, h5]
 
 /-- the summary of `lcc report --short` counts exactly the tests displayed above it -/
-theorem shortReport_summary (r : Report) (filt : Option RFilter) (v : ShortView) (h : shortReport r filt = .ok v)
-    (sm : Summary) (hs : v.summary = some sm) :
-    sm.tests = v.lines.length ∧ sm.successes = countStatus .passed (v.lines.map Prod.snd) ∧
-    sm.failures = countStatus .failed (v.lines.map Prod.snd) ∧
-    sm.skipped = nonZero (countStatus .skipped (v.lines.map Prod.snd)) ∧
-    sm.disabled = nonZero (countStatus .disabled (v.lines.map Prod.snd)) := by
-  obtain ⟨hl, hsum⟩ := shortReport_spec r filt v h
+theorem shortReport_summary (r : Report) (filt : Option RFilter) (sm : Summary) (hs : (shortReport r filt).summary = some sm) :
+    sm.tests = (shortReport r filt).lines.length ∧ sm.successes = countStatus .passed ((shortReport r filt).lines.map Prod.snd) ∧
+    sm.failures = countStatus .failed ((shortReport r filt).lines.map Prod.snd) ∧
+    sm.skipped = nonZero (countStatus .skipped ((shortReport r filt).lines.map Prod.snd)) ∧
+    sm.disabled = nonZero (countStatus .disabled ((shortReport r filt).lines.map Prod.snd)) := by
+  obtain ⟨hl, hsum⟩ := shortReport_spec r filt
   rcases hsum with ⟨hn, _⟩ | ⟨_, st, hst, hc⟩
   · rw [hn] at hs; cases hs
   · rw [hst] at hs
@@ -260,9 +231,9 @@ theorem shortReport_summary (r : Report) (filt : Option RFilter) (v : ShortView)
     rw [← testsWithSuitePath_snd [], ← hl, List.length_map] at this
     exact this
 
-theorem shortReport_no_summary_iff (r : Report) (filt : Option RFilter) (v : ShortView) (h : shortReport r filt = .ok v) :
-    v.summary = none ↔ v.lines = [] := by
-  obtain ⟨_, hsum⟩ := shortReport_spec r filt v h
+theorem shortReport_no_summary_iff (r : Report) (filt : Option RFilter) :
+    (shortReport r filt).summary = none ↔ (shortReport r filt).lines = [] := by
+  obtain ⟨_, hsum⟩ := shortReport_spec r filt
   rcases hsum with ⟨hn, hl⟩ | ⟨hl, st, hst, _⟩
   · simp [hn, hl]
   · simp [hst, hl]
